@@ -842,9 +842,9 @@ func quoteCoversIndex(data []byte, idx int, quote string) string {
 		}
 		hi := e
 		if cut {
-			for hi < len(data) && data[hi] != '\n' && data[hi] != '\r' {
-				hi++
-			}
+			// the quote was cut: the line goes on, and where it ends is exactly what is ambiguous in a
+			// file with mixed line endings - anything after the beginning of the quoted text is accepted
+			hi = len(data)
 		}
 		// the position may also be the line break that ends the quoted text
 		for hi < len(data) && (data[hi] == '\r' || data[hi] == '\n') && hi-e < 2 {
